@@ -356,10 +356,27 @@ def c08_overlay(vc, scr):
     return {src: out}
 
 
+def c08_on_fatal(vc, spec, res, c, recs):
+    """The real-threads layer died: the Go runtime ends the process on concurrent map access (not a panic
+    that could be recovered). In the output stream's own frames that is a violation of C08 (Get/GetNext must
+    return normally whatever runs concurrently)."""
+    t = tail(c.logfile, 6000)
+    for marker in ("fatal error: concurrent map writes", "fatal error: concurrent map read and map write", "fatal error: concurrent map iteration and map write"):
+        if marker in t and "internal/outputstream." in t:
+            res.violations.append({"t": "violation", "prop": res.prop, "key": "threads:process-fatal:" + marker.split(": ", 1)[1].replace(" ", "-"),
+                                   "what": "the output stream under real threads: %s (the runtime ends the process)" % marker,
+                                   "witness": {"log_tail": t[-2500:]}})
+            res.evaluations += 1
+            res.distinct.add("process-fatal")
+            res.distinct.add("process-fatal-2")
+            return
+    res.broken.append({"why": "%s child %d exited rc=%s without summary: %s" % (c.part["test"], c.k, c.rc, t[-1500:])})
+
+
 register("C08", title="output stream next-message lookup", pkg="./internal/outputstream",
          parts=[{"name": "outputstream_shim", "test": "^TestVerifC08$", "overlay_hook": c08_overlay,
                  "children": {"quick": 16, "thorough": 16}, "cases": {"quick": 25, "thorough": 250}},
-                {"name": "outputstream_real", "test": "^TestVerifC08Real$", "race": True,
+                {"name": "outputstream_real", "test": "^TestVerifC08Real$", "race": True, "on_fatal": c08_on_fatal,
                  "children": {"quick": 4, "thorough": 16}, "cases": {"quick": 3, "thorough": 20}}],
          timeout={"quick": 400, "thorough": 2400}, level="exploration",
          rule="layer 1: seeded bounded programs (mutator adding ids in increasing order / deleting the oldest or a missing id, 1-2 GetNext readers "
